@@ -122,3 +122,20 @@ reg("C16", MC, "bounded exhaustive enumeration of lattice point subsets x frames
     "dims, regular coordinates of the projected region (exact rational reference), NaN strictly outside / finite strictly inside the hull "
     "of the projected valid cells, value range, value preservation under affine projection without antialiasing, refusals.",
     "Qhull refusals are implementation-only failures (counted); boundary band of 3/4 cell with antialiasing.", "DESIGN.md section 5, C16")
+reg("C12", MC, "exhaustive enumeration of configurations plus stateless exploration of all dask schedules / method-boundary interleavings under a controlled scheduler",
+    "cross_val_score / score / train_test_split / SplineCV over a finite product of datasets, estimators, cross-validators and scorers, each score "
+    "compared with an independently fitted fresh estimator on the training rows and scikit-learn's public metric on the weighted test rows, and "
+    "required to differ from three wrong alternatives (non-vacuity). Delayed execution: the explorer replaces the dask scheduler, runs every task "
+    "in its own thread under a baton and enumerates every interleaving at the fit/score boundary (iterative preemption bounding; all 90 schedules "
+    "of 3 splits in thorough, bound 2 in quick) and every task order of the SplineCV graph; a fake client enumerates every completion order. "
+    "A failing schedule is replayed twice before it is reported.",
+    "Interleavings at estimator method boundaries under the GIL; a real distributed cluster is out of reach (fake client instead).",
+    "DESIGN.md section 5, C12 and section 2 (E3)")
+reg("C20", MC, "explicit-state breadth-first search over estimator call histories (depth 3/4) + exhaustive catalogue of call templates x array-slot variants",
+    "Every public callable and estimator method is called from valid templates with each array argument writable / read-only / non-contiguous: "
+    "inputs must be byte-wise unchanged and results bitwise identical. For 13 estimator specs every history up to depth 3 (thorough 4) over the "
+    "event alphabet {fit on three datasets, predict, filter, grid, clone, params round trip, caller overwrites its arrays} is replayed on a "
+    "fresh estimator and its fingerprint compared with that of the shortest history with the same abstract state (differential oracle, no "
+    "hand-written expected values). Every single inconsistency of a list of ~100 must raise; predict/grid/score/profile/scatter before fit must raise.",
+    "Fingerprints are rounded predictions + region_ + parameters; 'caller overwrites' is not applied to Linear/Cubic (SciPy keeps references).",
+    "DESIGN.md section 5, C20 and section 2 (E2)")
